@@ -443,6 +443,28 @@ pub fn check_case(ctx: &mut Ctx, case: &Case, cfg: &Cfg, props: &[String], want_
             .map(|st| st.lines.iter().filter(|l| l.line_type == "AsmInstruction").flat_map(|l| l.tokens.iter().map(|t| t + 1)).collect())
             .unwrap_or_default();
         rec["asmtoks"] = json!(asm);
+        // the second pass of the line formatter: which literals were rewritten, how many top-level lines were queued
+        if want_session {
+            if let (Some(fin), Some(n)) = (final_stage(&base.events), step_args(&base.events, "reflow_start").first().map(|a| a[0])) {
+                if fin.lines.len() <= 400 {
+                    let mut line_of_tok = vec![0usize; fin.kinds.len()];
+                    for (k, l) in fin.lines.iter().enumerate() {
+                        for &t in &l.tokens {
+                            if t < line_of_tok.len() && line_of_tok[t] == 0 {
+                                line_of_tok[t] = k + 1;
+                            }
+                        }
+                    }
+                    let rewritten: Vec<i64> = step_args(&base.events, "reindent_string").iter().map(|a| a[0] + 1).collect();
+                    rec["reflow"] = json!({
+                        "parents": fin.lines.iter().map(|l| l.parent.map(|p| p.0 + 1).unwrap_or(0)).collect::<Vec<_>>(),
+                        "line_of_tok": line_of_tok,
+                        "rewritten": rewritten,
+                        "n": n,
+                    });
+                }
+            }
+        }
         // the stage snapshots of the real pipeline (small inputs only: TLC re-checks every frame)
         let sts = stages(&base.events);
         if want_session && sts.len() >= 8 && sts[0].kinds.len() <= 120 {
